@@ -127,6 +127,15 @@ def replay_case(arg):
                 model.simulate(vfree.copy(), times.copy())
                 cp = model.copy()
                 out_c = cp.simulate(vfree.copy(), times.copy())
+                if rec['fixed']:
+                    # ... and the copy is a model of its own: re-fixing a parameter of the ORIGINAL to another value does not
+                    # change what the copy solves (the original gets its value back afterwards)
+                    k0 = rec['fixed'][0]
+                    model.fix_parameters({pub[k0 - 1]: float(values[k0 - 1]) * 1.5 + 0.1})
+                    out_c2 = cp.simulate(vfree.copy(), times.copy())
+                    model.fix_parameters({pub[k0 - 1]: float(values[k0 - 1])})
+                    if not interp.close(np.asarray(out_c2, dtype=float), exp_out, rtol=1e-6, atol=1e-8):
+                        fail('Solution', 'copy_follows_the_original', dict(got=np.asarray(out_c2).tolist(), expected=exp_out.tolist()))
                 if free:
                     model.enable_sensitivities(True)
             cnt['evaluations'] = cnt.get('evaluations', 0) + 2
